@@ -61,26 +61,32 @@ OpenRow(runs, prev) ==
        FlagCodes(prev.it, r.it, 128) \o FlagCodes(prev.un, r.un, 130) \o FlagCodes(prev.bx, r.bx, 132)
        \o TextCodes(r.t) \o (IF Len(runs) > 1 THEN <<32>> ELSE <<>>) \o OpenRow(Tail(runs), r)
 
-\* teletext row: colour / height codes, start box twice, text, end box twice (one run per row in this model)
-TeletextRow(runs) ==
+\* teletext row: colour / height codes, start box twice, text, end box twice (one run per row in this model);
+\* a row may also be transmitted without any box code (then the whole row is text)
+TeletextRow(runs, boxed) ==
   LET r == runs[1] IN
   (IF r.dh = 2 THEN <<DHON>> ELSE <<>>) \o (IF r.col >= 0 THEN <<r.col>> ELSE <<>>)
-  \o <<STARTBOX, STARTBOX>> \o TextCodes(r.t) \o <<ENDBOX, ENDBOX>>
+  \o (IF boxed THEN <<STARTBOX, STARTBOX>> ELSE <<>>) \o TextCodes(r.t) \o (IF boxed THEN <<ENDBOX, ENDBOX>> ELSE <<>>)
 
-RECURSIVE RowsCodes(_, _)
-RowsCodes(rows, dsc) ==
+\* box pattern of a block: which rows carry box codes ("all", "none", the odd ones, the even ones)
+BoxPatterns == {"all", "none", "odd", "even"}
+Boxed(bp, i) == bp = "all" \/ (bp = "odd" /\ i % 2 = 1) \/ (bp = "even" /\ i % 2 = 0)
+
+RECURSIVE RowsCodes(_, _, _, _)
+RowsCodes(rows, dsc, bp, i) ==
   IF rows = <<>> THEN <<>>
-  ELSE (IF dsc = 0 THEN OpenRow(Head(rows), PlainRun(<<>>)) ELSE TeletextRow(Head(rows)))
-       \o (IF Len(rows) > 1 THEN <<ROWBRK>> ELSE <<>>) \o RowsCodes(Tail(rows), dsc)
+  ELSE (IF dsc = 0 THEN OpenRow(Head(rows), PlainRun(<<>>)) ELSE TeletextRow(Head(rows), Boxed(bp, i)))
+       \o (IF Len(rows) > 1 THEN <<ROWBRK>> ELSE <<>>) \o RowsCodes(Tail(rows), dsc, bp, i + 1)
 
-TTIOf(c, dsc) == [ebn |-> 255, tci |-> c.tci, tco |-> c.tco, vp |-> c.vp, jc |-> c.jc, tf |-> RowsCodes(c.rows, dsc)]
+TTIOf(c, dsc, bp) == [ebn |-> 255, tci |-> c.tci, tco |-> c.tco, vp |-> c.vp, jc |-> c.jc, tf |-> RowsCodes(c.rows, dsc, bp, 1)]
 UserData == [ebn |-> 254, tci |-> <<0, 0, 0, 0>>, tco |-> <<0, 0, 0, 0>>, vp |-> 0, jc |-> 0, tf |-> <<85, 83, 69, 82>>]
 
-\* renderings: with / without reserved user-data blocks interleaved
+\* renderings: with / without reserved user-data blocks interleaved; teletext blocks under every box pattern
 Renderings(G) ==
   {[fps |-> G.fps, dsc |-> G.dsc, tcp |-> G.tcp, meta |-> G.meta,
-    ttis |-> IF ud THEN <<UserData>> \o FlattenSeq([i \in DOMAIN G.cues |-> <<TTIOf(G.cues[i], G.dsc), UserData>>])
-                   ELSE [i \in DOMAIN G.cues |-> TTIOf(G.cues[i], G.dsc)]] : ud \in BOOLEAN}
+    ttis |-> IF ud THEN <<UserData>> \o FlattenSeq([i \in DOMAIN G.cues |-> <<TTIOf(G.cues[i], G.dsc, bp), UserData>>])
+                   ELSE [i \in DOMAIN G.cues |-> TTIOf(G.cues[i], G.dsc, bp)]] :
+     ud \in BOOLEAN, bp \in (IF G.dsc = 0 THEN {"all"} ELSE BoxPatterns)}
 
 ---------------------------------------------------------------------------
 (* Reference decoder of a text field (from the format description) *)
